@@ -14,7 +14,8 @@ EXTERNAL_CLASSES = {
 }
 EXTERNAL_MODULES = {'http', 'http.client', 're', 'copy', 'collections', 'queue', 'threading', 'time', 'os', 'sys',
                     'warnings', 'logging', 'os.path'}
-EXTERNAL_CONSTS = {'re.IGNORECASE': 2, 're.I': 2, 're.UNICODE': 32, 're.U': 32, 're.DOTALL': 16,
+EXTERNAL_CONSTS = {'logging.DEBUG': 10, 'logging.INFO': 20, 'logging.WARNING': 30, 'logging.ERROR': 40,
+                   're.IGNORECASE': 2, 're.I': 2, 're.UNICODE': 32, 're.U': 32, 're.DOTALL': 16,
                    're.S': 16, 're.MULTILINE': 8, 're.M': 8, 're.VERBOSE': 64, 're.X': 64, 're.ASCII': 256}
 
 # uninterpreted functions
@@ -61,6 +62,8 @@ def obj_truth(ex, ptr, c):
 
 
 def opaque_truth(ex, v):
+    if v.cls == 'bytes':
+        return bytes_len(v.t) > 0
     ex.used_assumptions.add('A-TRUTHY: opaque objects are truthy')
     return True
 
@@ -219,6 +222,7 @@ OPAQUE_METHODS = {
     ('Logger', 'debug'): 'logging.debug', ('Logger', 'info'): 'logging.info',
     ('Logger', 'warning'): 'logging.warning', ('Logger', 'error'): 'logging.error',
     ('Logger', 'exception'): 'logging.error', ('Logger', 'log'): 'logging.info',
+    ('Logger', 'isEnabledFor'): 'logging.isEnabledFor', ('bytes', 'decode'): 'bytes.decode',
     ('Headers', 'get'): 'headers.get', ('File', 'read'): 'file.read', ('File', 'write'): 'file.write',
     ('File', 'flush'): 'file.write',
 }
@@ -302,6 +306,15 @@ def opaque_delitem(ex, base, idx, node):
 
 
 def opaque_slice(ex, base, lo, hi, node):
+    if base.cls == 'bytes':
+        n = bytes_len(base.t)
+        a = ex.clamp(lo, n, z3.IntVal(0))
+        b = ex.clamp(hi, n, n)
+        r = z3.Const(ex.fresh_name('bslice'), RefSort)
+        ex.assume(bytes_len(r) == z3.If(b < a, 0, b - a))
+        # a slice that is the whole string keeps UTF-8 validity; a proper slice need not
+        ex.assume(z3.Implies(z3.And(a == 0, b == n), valid_utf8(r) == valid_utf8(base.t)))
+        return VOpaque(r, 'bytes')
     ex.limit(f'slice of opaque {base}', node)
 
 
@@ -372,7 +385,10 @@ def int_to_str(ex, v):
 
 
 def str_repeat(ex, a, b, node):
-    ex.limit('symbolic string repetition', node)
+    n = ex.flat(b, 'int')
+    r = z3.String(ex.fresh_name('srep'))
+    ex.assume(z3.Length(r) == z3.Length(a.t) * z3.If(n < 0, 0, n))
+    return VStr(r)
 
 
 def list_repeat(ex, ca, b, node):
@@ -540,6 +556,9 @@ def _len(ex, fn, args, kw, node):
                 return ex.call_function(info.find_method('__len__'), [v], {}, node)
     if isinstance(v, (VNone, VInt, VBool)):
         ex.raise_('TypeError', node)
+    if isinstance(v, VOpaque) and v.cls == 'bytes':
+        ex.assume(bytes_len(v.t) >= 0)
+        return VInt(bytes_len(v.t))
     if isinstance(v, VPy) and hasattr(v.obj, '__len__'):
         return VInt(len(v.obj))
     ex.limit(f'len of {v}', node)
@@ -1372,3 +1391,49 @@ def _http_responses_get(ex, fn, args, kw, node):
 @builtin('time.sleep')
 def _sleep(ex, fn, args, kw, node):
     return NONE
+
+
+bytes_len = z3.Function('bytes_len', RefSort, z3.IntSort())
+valid_utf8 = z3.Function('valid_utf8', RefSort, z3.BoolSort())
+
+
+@builtin('bytes.decode')
+def _bytes_decode(ex, fn, args, kw, node):
+    b = fn.self_val
+    enc = ex.res(args[0]).concrete() if args else 'utf-8'
+    errors = kw.get('errors', args[1] if len(args) > 1 else None)
+    ce = ex.res(errors).concrete() if errors is not None else 'strict'
+    ex.used_assumptions.add('A-BUILTIN: bytes.decode(utf-8) raises UnicodeDecodeError exactly on ill-formed UTF-8 (uninterpreted predicate valid_utf8)')
+    if enc in ('utf-8', 'utf8', 'UTF-8') and ce == 'strict':
+        ex.may_raise(z3.Not(valid_utf8(b.t)), 'UnicodeDecodeError', node, kind='conv')
+    elif ce not in ('replace', 'ignore', 'backslashreplace', 'strict'):
+        ex.limit('bytes.decode error handler', node)
+    return VStr(z3.String(ex.fresh_name('decoded')))
+
+
+@builtin('logging.isEnabledFor')
+def _is_enabled_for(ex, fn, args, kw, node):
+    return VBool(z3.Bool(ex.fresh_name('enabled')))
+
+
+@builtin('str.partition', 'str.rpartition')
+def _partition(ex, fn, args, kw, node):
+    s_ = fn.self_val
+    sep = args[0]
+    if not isinstance(sep, VStr):
+        ex.raise_('TypeError', node)
+    cs, csep = s_.concrete(), sep.concrete()
+    which = fn.name.split('.')[1]
+    if cs is not None and csep is not None:
+        return VTuple([VStr(x) for x in getattr(cs, which)(csep)])
+    a = z3.String(ex.fresh_name('phead'))
+    m = z3.String(ex.fresh_name('psep'))
+    b = z3.String(ex.fresh_name('ptail'))
+    ex.assume(s_.t == z3.Concat(a, m, b))
+    ex.assume(z3.Or(m == sep.t, z3.And(m == z3.StringVal(''), z3.Not(z3.Contains(s_.t, sep.t)))))
+    if which == 'partition':
+        ex.assume(z3.Implies(m == sep.t, z3.Not(z3.Contains(a, sep.t))) if csep is not None and len(csep) == 1 else z3.BoolVal(True))
+        ex.assume(z3.Implies(z3.Not(m == sep.t), z3.And(a == s_.t, b == z3.StringVal(''))))
+    else:
+        ex.assume(z3.Implies(z3.Not(m == sep.t), z3.And(b == s_.t, a == z3.StringVal(''))))
+    return VTuple([VStr(a), VStr(m), VStr(b)])
